@@ -3,16 +3,25 @@ Model of the full-text index of discret (property C17):
   `src/database/node.rs:93-98`    `_node_fts`: content-less FTS5 trigram index keyed by the storage slot (rowid);
   `node.rs:322-409`  `Node::write(index, old_text, new_text)`: with indexing on, the words of the previous text
                      are removed for the slot ('delete' command) and the words of the current text added;
-                     a new row takes the slot SQLite assigns (largest slot in use + 1);
-  `node.rs:297-301`  `Node::delete`: the row goes, its index entries stay;
-  `node.rs:538-568, 771-781`  synchronised rows are written with `index = false`;
+                     a new row takes the slot SQLite assigns (largest slot in use + 1: `_node` is a rowid table
+                     without AUTOINCREMENT);
+  `node.rs:297-301`  `Node::delete`, `node.rs:947-972` `NodeDeletionEntry::delete_all`: the row goes, its index
+                     entries stay (switch `deleteLeavesIndex`; repaired: the entries of the row's current text are
+                     removed first, when the slot has a document in the index);
+  `node.rs:538-568, 771-781`  synchronised rows are written with `index = false` (switch `ingestUnindexed`; repaired:
+                     `graph_database.rs add_nodes` sets the flag of the row's entity and the current text, the
+                     previous text is already gathered by `filter_existing`);
   `mutation_query.rs:144-161, 307-314`  previous text (only when non-empty) / current text of a local mutation;
-  `data_model_parser.rs` `Entity::update`: the index flag of an existing entity is not updated by a new model version;
+  `data_model_parser.rs` `Entity::update`: the index flag of an existing entity is not updated by a new model version
+                     (switch `toggleIgnored`; repaired: the flag follows, nothing is re-indexed: `toggleNoReindex`);
+  `node.rs:1004-1025` `extract_json`: the text of a row = its JSON strings at any depth, each followed by a space;
   `query.rs:903-935`  search = rows of the entity joined on slot with the index entries matching the text.
 
 Settled by experiment on the real engine (harness `dv-events`, files `corpus/C17/*.ops`): the index behaves as a
 SET of `(slot, word)` pairs — inserting into a slot that still has entries adds to them (no constraint error),
-a 'delete' removes every entry of the named words for the slot whether or not they were indexed.
+a 'delete' removes every entry of the named words for the slot whether or not they were indexed — plus one
+document record per slot (`_node_fts_docsize`: written by an insertion, removed by a 'delete'), which is what a
+join of `_node` with `_node_fts` on the rowid sees.
 Texts are lists of words; a search word matches a text that contains it.
 Import-free (core Lean only).
 -/
@@ -29,10 +38,39 @@ structure Defects where
   ingestUnindexed : Bool
   /-- `Entity::update` ignores the index flag of a later model version -/
   toggleIgnored : Bool
+  /-- a model version that changes the index flag of an entity changes the flag only: the rows the entity already
+      has are neither indexed (flag switched on) nor removed from the index (flag switched off).
+      Only visible when `toggleIgnored` is off. -/
+  toggleNoReindex : Bool
 deriving Repr, DecidableEq
 
-def Defects.none : Defects := { deleteLeavesIndex := false, ingestUnindexed := false, toggleIgnored := false }
-def Defects.asImplemented : Defects := { deleteLeavesIndex := true, ingestUnindexed := true, toggleIgnored := true }
+def Defects.none : Defects :=
+  { deleteLeavesIndex := false, ingestUnindexed := false, toggleIgnored := false, toggleNoReindex := false }
+
+/-- the code before any of the repairs proposed in `findings/C17-*.patch` -/
+def Defects.beforeFix : Defects :=
+  { deleteLeavesIndex := true, ingestUnindexed := true, toggleIgnored := true, toggleNoReindex := true }
+
+/-- /repo as it is: what the correspondence run validates. One switch per line; the `.verif.patch` that goes with a
+    repair of /repo turns its own line to `false`. -/
+def Defects.asImplemented : Defects :=
+  { -- `Node::delete` / `NodeDeletionEntry::delete_all` leave the index entries of the deleted row
+    -- (repair: findings/C17-deleted-row-leaves-index.patch)
+    --
+    --
+    deleteLeavesIndex := true,
+    -- `Node::filter_existing` / `add_nodes`: synchronised rows are written with `index: false`
+    -- (repair: findings/C17-synchronised-rows-unindexed.patch)
+    --
+    --
+    ingestUnindexed := true,
+    -- `Entity::update` keeps the `enable_full_text` of the first declaration
+    -- (repair: findings/C17-index-flag-of-later-version.patch)
+    --
+    --
+    toggleIgnored := true,
+    -- no re-indexing when a flag changes: stays, with or without the repairs
+    toggleNoReindex := true }
 
 structure Row where
   n : Nat
@@ -53,6 +91,7 @@ structure Site where
   rows : List Row
   tombs : List Tomb
   idx : List (Slot × Word)      -- the index, as a set
+  docs : List Slot              -- slots that have a document record in the index, as a set
   refs : List (Nat × Nat)       -- references `kids` between `Doc` rows: (parent, child)
   logged : List Ent             -- entities having a daily-log entry (what a peer asks for)
   indexOn : Ent → Bool          -- the flag the engine uses
@@ -63,7 +102,7 @@ def declaredOn (v : Nat) (e : Ent) : Bool :=
   if e = 0 then v % 2 = 0 else (v / 2) % 2 = 1
 
 def Site.empty : Site :=
-  { rows := [], tombs := [], idx := [], refs := [], logged := [], indexOn := declaredOn 0, declared := 0 }
+  { rows := [], tombs := [], idx := [], docs := [], refs := [], logged := [], indexOn := declaredOn 0, declared := 0 }
 
 structure State where
   d : Defects
@@ -84,6 +123,9 @@ def idxAdd (slot : Slot) (text : List Word) (idx : List (Slot × Word)) : List (
 def idxDel (slot : Slot) (text : List Word) (idx : List (Slot × Word)) : List (Slot × Word) :=
   idx.filter fun p => !(p.1 = slot && text.contains p.2)
 
+/-- the 'delete' command also removes the document record of the slot -/
+def docDel (slot : Slot) (docs : List Slot) : List Slot := docs.filter fun x => x ≠ slot
+
 /-- slot SQLite assigns to a new row: one more than the largest in use -/
 def nextSlot (rows : List Row) : Slot := (rows.foldl (fun m r => max m r.slot) 0) + 1
 
@@ -101,13 +143,24 @@ def writeUpdate (index : Bool) (old : Row) (new : Row) (prevText : Option (List 
         | none => s.idx
       idxAdd old.slot new.text i0
     else s.idx
-  { s with rows := eraseRow old.n s.rows ++ [{ new with slot := old.slot }], idx := idx1 }
+  let docs1 := if index then
+      (match prevText with
+        | some _ => docDel old.slot s.docs
+        | none => s.docs) ++ [old.slot]
+    else s.docs
+  { s with rows := eraseRow old.n s.rows ++ [{ new with slot := old.slot }], idx := idx1, docs := docs1 }
 
 /-- `Node::write` for a new row -/
 def writeInsert (index : Bool) (new : Row) (s : Site) : Site :=
   let slot := nextSlot s.rows
   { s with rows := s.rows ++ [{ new with slot := slot }],
-           idx := if index then idxAdd slot new.text s.idx else s.idx }
+           idx := if index then idxAdd slot new.text s.idx else s.idx,
+           docs := if index then s.docs ++ [slot] else s.docs }
+
+/-- the repaired deletion (`Node::delete_fts`): when the slot has a document in the index, a 'delete' for the
+    current text of the row -/
+def dropEntries (docs : List Slot) (r : Row) (idx : List (Slot × Word)) : List (Slot × Word) :=
+  if docs.contains r.slot then idxDel r.slot r.text idx else idx
 
 /-- rows of entity `e` joined on slot with the index entries for `t` (`search()`), as row numbers -/
 def search (s : Site) (e : Ent) (t : Word) : List Nat :=
@@ -169,15 +222,24 @@ def toggleIdx (s : Site) (on : Ent → Bool) : List (Slot × Word) :=
   (s.idx.filter fun p => !(s.rows.any fun r => r.slot = p.1 && (s.indexOn r.ent != on r.ent))) ++
   ((s.rows.filter fun r => on r.ent && !(s.indexOn r.ent)).flatMap fun r => r.text.map fun w => (r.slot, w))
 
+/-- the document records after the intended effect of new index flags -/
+def toggleDocs (s : Site) (on : Ent → Bool) : List Slot :=
+  (s.docs.filter fun x => !(s.rows.any fun r => r.slot = x && (s.indexOn r.ent != on r.ent))) ++
+  ((s.rows.filter fun r => on r.ent && !(s.indexOn r.ent)).map (·.slot))
+
 /-- local creation / update / deletion and model update at one site; `none` = not applicable (skipped) -/
 def localOp (d : Defects) (tick : Nat) (usedRows : List Nat) (s : Site) : Op → Option Site
   | .model _ v =>
     if v ≥ 4 then none
     else if d.toggleIgnored then some { s with declared := v }
+    else if d.toggleNoReindex then
+      -- `Entity::update` copies the flag: writes from now on follow it, the rows already there are left as they are
+      some { s with declared := v, indexOn := declaredOn v }
     else
       -- intended: the flag follows the model; an entity whose index is switched on is indexed from its
       -- current rows, one whose index is switched off loses its entries
-      some { s with declared := v, indexOn := declaredOn v, idx := toggleIdx s (declaredOn v) }
+      some { s with declared := v, indexOn := declaredOn v, idx := toggleIdx s (declaredOn v),
+                    docs := toggleDocs s (declaredOn v) }
   | .new _ n e text =>
     -- (a used row number is in `usedRows`; the second test is redundant in reachable states)
     if usedRows.contains n || e ≥ 2 || (findRow n s.rows).isSome then none
@@ -205,7 +267,8 @@ def localOp (d : Defects) (tick : Nat) (usedRows : List Nat) (s : Site) : Op →
       some { s with rows := eraseRow n s.rows,
                     refs := s.refs.filter (fun r => r.1 ≠ n && r.2 ≠ n),
                     tombs := s.tombs ++ [{ n := n, ent := old.ent, dtick := tick }],
-                    idx := if d.deleteLeavesIndex then s.idx else idxDel old.slot old.text s.idx,
+                    idx := if d.deleteLeavesIndex then s.idx else dropEntries s.docs old s.idx,
+                    docs := if d.deleteLeavesIndex then s.docs else docDel old.slot s.docs,
                     logged := addLogged old.ent s.logged }
   | .link _ n m =>
     match findRow n s.rows, findRow m s.rows with
@@ -226,24 +289,27 @@ def insertByCtick (r : Row) : List Row → List Row
   | [] => [r]
   | h :: t => if r.ctick < h.ctick then r :: h :: t else h :: insertByCtick r t
 
-/-- tombstones of entity `e`: the rows go (whatever their version), the index is not touched -/
+/-- tombstones of entity `e`: the rows go (whatever their version); as implemented the index is not touched,
+    repaired: each row that goes takes the entries of its current text with it -/
 def pullTombs (d : Defects) (src : Site) (e : Ent) (dst : Site) : Site :=
   let ts := src.tombs.filter fun t => t.ent = e
   let gone := dst.rows.filter fun r => ts.any fun t => t.n = r.n
   let idx1 := if d.deleteLeavesIndex then dst.idx
-    else gone.foldl (fun i r => idxDel r.slot r.text i) dst.idx
+    else gone.foldl (fun i r => dropEntries dst.docs r i) dst.idx
+  let docs1 := if d.deleteLeavesIndex then dst.docs
+    else dst.docs.filter fun x => !(gone.any fun r => r.slot = x)
   { dst with rows := dst.rows.filter (fun r => !(ts.any fun t => t.n = r.n)),
              tombs := dst.tombs ++ ts.filter (fun t => !(dst.tombs.contains t)),
              idx := idx1,
+             docs := docs1,
              logged := if ts.isEmpty then dst.logged else addLogged e dst.logged }
 
-/-- one fetched row: written over the local slot, or inserted; `index = false` as implemented -/
+/-- one fetched row: written over the local slot, or inserted; `index = false` as implemented, repaired: the
+    flag of the row's entity at the receiving site. The previous text is passed whenever the row exists. -/
 def ingestRow (d : Defects) (dst : Site) (r : Row) : Site :=
   let index := !d.ingestUnindexed && dst.indexOn r.ent
   match findRow r.n dst.rows with
-  | some old =>
-    let prev := if old.text.isEmpty then none else some old.text
-    writeUpdate index old r prev dst
+  | some old => writeUpdate index old r (some old.text) dst
   | none => writeInsert index r dst
 
 /-- rows of entity `e`: those unknown locally or newer than the local version, in creation order -/
@@ -371,5 +437,97 @@ def runOps : State → List Op → State × List Out
     let r := step st op
     let r2 := runOps r.1 ops
     (r2.1, r.2 :: r2.2)
+
+/-! ### which histories the code as it is handles -/
+
+/-- an operation the code handles with defects `d`, in state `st`:
+    a deletion needs the repaired deletion; an ingestion needs the repaired ingestion; a model version that
+    changes the flag of an entity without re-indexing needs that entity to have no row at the site. -/
+def Op.admissible (d : Defects) (st : State) : Op → Bool
+  | .del _ _ => !d.deleteLeavesIndex
+  | .pull _ _ => !d.ingestUnindexed
+  | .model si v =>
+    match st.sites[si]? with
+    | none => true
+    | some s =>
+      d.toggleIgnored || !d.toggleNoReindex || s.rows.all fun r => declaredOn v r.ent == s.indexOn r.ent
+  | _ => true
+
+/-- a model version the engine's flags follow: any, unless later versions are ignored — then only one that
+    declares what is in force -/
+def Op.flagSafe (d : Defects) (st : State) : Op → Bool
+  | .model si v =>
+    match st.sites[si]? with
+    | none => true
+    | some s => !d.toggleIgnored || v = s.declared
+  | _ => true
+
+def admissibleRun (st : State) : List Op → Bool
+  | [] => true
+  | op :: ops => op.admissible st.d st && admissibleRun (step st op).1 ops
+
+def flagSafeRun (st : State) : List Op → Bool
+  | [] => true
+  | op :: ops => op.flagSafe st.d st && flagSafeRun (step st op).1 ops
+
+/-! ### the text of a row: `extract_json` (`node.rs:1004-1025`), literally
+
+`serde_json::Value` with `serde_json::Map` = `BTreeMap` (the crate is built without `preserve_order`): an object is
+its fields in ascending key order, one value per key. -/
+
+mutual
+inductive Json where
+  | null
+  | bool (b : Bool)
+  | num (n : Int)
+  | str (s : List Char)
+  | arr (items : JList)
+  | obj (fields : JFields)
+inductive JList where
+  | nil
+  | cons (h : Json) (t : JList)
+inductive JFields where
+  | nil
+  | cons (k : List Char) (v : Json) (t : JFields)
+end
+
+mutual
+/-- `extract_json(val, buff)`: what is pushed on `buff` -/
+def extractJson : Json → List Char
+  | .str s => s ++ [' ']                -- `buff.push_str(v); buff.push(' ')`
+  | .arr items => extractList items     -- `for v in arr`
+  | .obj fields => extractFields fields -- `for v in map { extract_json(v.1, buff) }`: values only, never keys
+  | _ => []                             -- numbers, booleans, null
+def extractList : JList → List Char
+  | .nil => []
+  | .cons h t => extractJson h ++ extractList t
+def extractFields : JFields → List Char
+  | .nil => []
+  | .cons _ v t => extractJson v ++ extractFields t
+end
+
+mutual
+/-- the strings of a value, at any depth, in the order `extract_json` visits them -/
+def strings : Json → List (List Char)
+  | .str s => [s]
+  | .arr items => stringsList items
+  | .obj fields => stringsFields fields
+  | _ => []
+def stringsList : JList → List (List Char)
+  | .nil => []
+  | .cons h t => strings h ++ stringsList t
+def stringsFields : JFields → List (List Char)
+  | .nil => []
+  | .cons _ v t => strings v ++ stringsFields t
+end
+
+/-- `Map::insert` of a `BTreeMap<String, Value>`: ascending keys (code points, as the UTF-8 byte order), a key
+    already present gets the new value -/
+def JFields.insert (k : List Char) (v : Json) : JFields → JFields
+  | .nil => .cons k v .nil
+  | .cons k' v' t =>
+    if k = k' then .cons k v t
+    else if k < k' then .cons k v (.cons k' v' t)
+    else .cons k' v' (JFields.insert k v t)
 
 end Discret.Fts
